@@ -433,6 +433,10 @@ func (k Keeper) convertCoinNativeERC20(
 	if balanceToken == nil {
 		return nil, errorsmod.Wrap(types.ErrEVMCall, "failed to retrieve balance")
 	}
+	escrowToken := k.BalanceOf(ctx, erc20, contract, types.ModuleAddress)
+	if escrowToken == nil {
+		return nil, errorsmod.Wrap(types.ErrEVMCall, "failed to retrieve balance")
+	}
 
 	// Escrow Coins on module account
 	if err := k.bankKeeper.SendCoinsFromAccountToModule(ctx, sender, types.ModuleName, coins); err != nil {
@@ -468,6 +472,18 @@ func (k Keeper) convertCoinNativeERC20(
 		return nil, errorsmod.Wrapf(
 			types.ErrBalanceInvariance,
 			"invalid token balance - expected: %v, actual: %v", exp, balanceTokenAfter,
+		)
+	}
+
+	// Check that the escrow decreased by exactly the unescrowed amount
+	escrowTokenAfter := k.BalanceOf(ctx, erc20, contract, types.ModuleAddress)
+	if escrowTokenAfter == nil {
+		return nil, errorsmod.Wrap(types.ErrEVMCall, "failed to retrieve balance")
+	}
+	if expEscrow := big.NewInt(0).Sub(escrowToken, tokens); escrowTokenAfter.Cmp(expEscrow) != 0 {
+		return nil, errorsmod.Wrapf(
+			types.ErrBalanceInvariance,
+			"invalid escrow balance - expected: %v, actual: %v", expEscrow, escrowTokenAfter,
 		)
 	}
 
